@@ -1186,7 +1186,7 @@ def _read_meta(ctx: ReaderContext) -> IMeta:
     input stream."""
     start = ctx.reader.advance()
     assert start == "^"
-    meta = _read_next_consuming_comment(ctx)
+    meta = _read_owed_form(ctx, "metadata prefix")
 
     meta_map: lmap.PersistentMap[LispForm, LispForm] | None
     if isinstance(meta, sym.Symbol):
@@ -1202,7 +1202,7 @@ def _read_meta(ctx: ReaderContext) -> IMeta:
             f"Expected symbol, keyword, or map for metadata, not {type(meta)}"
         )
 
-    obj_with_meta = _read_next_consuming_comment(ctx)
+    obj_with_meta = _read_owed_form(ctx, "metadata")
     if isinstance(obj_with_meta, IWithMeta):
         new_meta = (
             obj_with_meta.meta.cons(meta_map)
@@ -1318,12 +1318,24 @@ def _read_function(ctx: ReaderContext) -> llist.PersistentList:
     return llist.l(_FN, vec.vector(arg_list), body)
 
 
+def _read_owed_form(ctx: ReaderContext, prefix: str) -> RawReaderForm:
+    """Read the next full form from the input stream for a reader prefix (such
+    as quote, deref, or metadata) which is incomplete without one.
+
+    If the input ends before such a form is found, raise an UnexpectedEOFError
+    rather than returning the EOF marker to be embedded in the prefixed form."""
+    next_form = _read_next_consuming_comment(ctx)
+    if next_form is ctx.eof:
+        raise ctx.eof_error(f"Unexpected EOF after {prefix}")
+    return next_form
+
+
 @_with_loc
 def _read_quoted(ctx: ReaderContext) -> llist.PersistentList:
     """Read a quoted form from the input stream."""
     start = ctx.reader.advance()
     assert start == "'"
-    next_form = _read_next_consuming_comment(ctx)
+    next_form = _read_owed_form(ctx, "quote")
     return llist.l(_QUOTE, next_form)
 
 
@@ -1433,7 +1445,7 @@ def _read_syntax_quoted(ctx: ReaderContext) -> RawReaderForm:
     assert start == "`"
 
     with ctx.syntax_quoted():
-        return _process_syntax_quoted_form(ctx, _read_next_consuming_comment(ctx))
+        return _process_syntax_quoted_form(ctx, _read_owed_form(ctx, "syntax quote"))
 
 
 def _read_unquote(ctx: ReaderContext) -> LispForm:
@@ -1456,10 +1468,10 @@ def _read_unquote(ctx: ReaderContext) -> LispForm:
         next_char = ctx.reader.peek()
         if next_char == "@":
             ctx.reader.advance()
-            next_form = _read_next_consuming_comment(ctx)
+            next_form = _read_owed_form(ctx, "unquote-splicing")
             return llist.l(_UNQUOTE_SPLICING, next_form)
         else:
-            next_form = _read_next_consuming_comment(ctx)
+            next_form = _read_owed_form(ctx, "unquote")
             return llist.l(_UNQUOTE, next_form)
 
 
@@ -1468,7 +1480,7 @@ def _read_deref(ctx: ReaderContext) -> LispForm:
     """Read a derefed form from the input stream."""
     start = ctx.reader.advance()
     assert start == "@"
-    next_form = _read_next_consuming_comment(ctx)
+    next_form = _read_owed_form(ctx, "deref")
     return llist.l(_DEREF, next_form)
 
 
@@ -1747,6 +1759,8 @@ def _read_var_macro(ctx: ReaderContext) -> llist.PersistentList:
     assert ctx.reader.peek() == "'"
     ctx.reader.advance()
     char_next = ctx.reader.peek()
+    if char_next == "":
+        raise ctx.eof_error("Unexpected EOF after var quote")
     if char_next == "~":
         s = _read_unquote(ctx)
     else:
@@ -1759,7 +1773,7 @@ def _read_comment_macro(ctx: ReaderContext) -> Comment:
     a comment."""
     assert ctx.reader.peek() == "_"
     ctx.reader.advance()
-    _read_next_consuming_comment(ctx)  # Ignore the entire next form
+    _read_owed_form(ctx, "comment macro")  # Ignore the entire next form
     return COMMENT
 
 
@@ -1802,7 +1816,7 @@ def _read_reader_macro(ctx: ReaderContext) -> LispReaderForm:
             elif s.name == "f":
                 return _read_fstr(ctx)
 
-        v = _read_next_consuming_comment(ctx)
+        v = _read_owed_form(ctx, f"tag #{s}")
 
         if not ctx.should_process_tagged_literals:
             return tagged_literal(s, v)
